@@ -208,3 +208,29 @@ def batch(progs, with_spec=True):
     return [(reps[i * k], reps[i * k + 1] if with_spec else None) for i in range(len(progs))]
 
 
+
+
+def replay(prop, doc):
+    """./check Cxx --replay FILE for the render-pipeline properties: the recorded program is rendered again by
+    the real code, the model of the code and the reading of the property; exit 1 when the real code still
+    differs from the reading (VIOLATION line), 0 when it does not"""
+    core.use_repo()
+    core.django_setup()
+    prog = doc.get("input")
+    if not isinstance(prog, dict) or "lib" not in prog:
+        print("%s: this replay does not hold a single program (stream %s); recorded case:" % (prop, doc.get("stream")))
+        print(json.dumps({k: doc.get(k) for k in ("input", "impl", "model", "spec", "note")}, indent=1, ensure_ascii=False, default=str)[:6000])
+        return 2
+    (rep, sp), = batch([prog])
+    real = tplgen.run_real(prog, limit=5.0)
+    dm, ds = cmp_model(real, rep), cmp_spec(real, sp)
+    for line in describe(prog):
+        print(line)
+    pl = replay_payload(prog, real, rep, sp)
+    print("REAL ", pl["real"]["err"] or pl["real"]["out"])
+    print("MODEL", pl.get("model", {}).get("err") or pl.get("model", {}).get("out"), "(agrees with the code)" if dm is None else "(DIFFERS: %s)" % dm)
+    print("SPEC ", pl.get("spec", {}).get("err") or pl.get("spec", {}).get("out"), "(the code does what the property says)" if ds is None else "(VIOLATED: %s)" % ds)
+    if ds is not None:
+        print("VIOLATION property=%s replay=%s" % (prop, doc.get("how", "").split("--replay ")[-1]))
+        return 1
+    return 0
